@@ -27,3 +27,4 @@ import TLX.Props.Translated.Keylog
 import TLX.Props.Translated.QuicSess3
 import TLX.Props.Translated.Decrypt2
 import TLX.Props.Translated.Opts
+import TLX.Props.Translated.TlsKeys
